@@ -678,6 +678,14 @@ func genForProgram(rng *rand.Rand, legacy bool) ([]item, []item) {
 		if rng.Intn(3) == 0 {
 			items = append(items, genInstr(rng, env, o))
 		}
+		if b > 0 && rng.Intn(3) == 0 && len(countNames) < 4 {
+			// an EQU defined between blocks, used as a count by the blocks that follow
+			nm := ident(rng, used)
+			v := rng.Intn(4)
+			vals[nm] = v
+			countNames = append([]string{nm}, countNames...)
+			items = append(items, item{kind: 'Q', name: nm, expr: []etok{{'n', fmt.Sprint(v)}}})
+		}
 		blk := genForBlock(rng, used, nil, countNames, vals, 1, &budget, legacy)
 		items = append(items, blk)
 		if len(blk.labels) > 0 && rng.Intn(3) == 0 {
@@ -698,12 +706,24 @@ type asmOutcome struct {
 	g   int
 }
 
+// asmTimeouts counts cases that hit the deadline; after a few of them the remaining cases of
+// the domain are skipped (each one costs a full deadline and leaves a spinning goroutine behind)
+var asmTimeouts int
+
+const asmDeadline = 3 * time.Second
+
 func runAsmFull(cfg gmars.SimulatorConfig, text []byte) asmOutcome {
+	if asmTimeouts >= 3 {
+		return asmOutcome{"skipped", 0}
+	}
 	before := runtime.NumGoroutine()
 	var w gmars.WarriorData
 	var err error
-	f := guarded(10*time.Second, func() { w, err = gmars.CompileWarrior(bytes.NewReader(text), cfg) })
+	f := guarded(asmDeadline, func() { w, err = gmars.CompileWarrior(bytes.NewReader(text), cfg) })
 	res := wresult(w, err, f)
+	if f == "timeout" {
+		asmTimeouts++
+	}
 	if f == "" && err != nil {
 		z := 0
 		if w.Code == nil && w.Name == "" && w.Author == "" && w.Strategy == "" && w.Start == 0 {
@@ -714,14 +734,14 @@ func runAsmFull(cfg gmars.SimulatorConfig, text []byte) asmOutcome {
 	g := 0
 	if f == "" {
 		// producers finish right after the consumer got the last token; give them a moment
-		for i := 0; i < 200; i++ {
+		for i := 0; i < 60; i++ {
 			g = runtime.NumGoroutine() - before
 			if g <= 0 {
 				break
 			}
 			time.Sleep(50 * time.Microsecond)
 			if i > 20 {
-				time.Sleep(2 * time.Millisecond)
+				time.Sleep(time.Millisecond)
 			}
 		}
 	}
@@ -730,6 +750,9 @@ func runAsmFull(cfg gmars.SimulatorConfig, text []byte) asmOutcome {
 
 func emitAsm(out *bufio.Writer, id, tag string, cfg gmars.SimulatorConfig, text []byte, prog string, second []byte) {
 	o := runAsmFull(cfg, text)
+	if o.res == "skipped" {
+		return
+	}
 	fmt.Fprintf(out, "X %s %s %s %s %s | %s g=%d", id, tag, cfgFields(cfg), hexd(text), prog, o.res, o.g)
 	if second != nil {
 		o2 := runAsmFull(cfg, second)
